@@ -260,7 +260,7 @@ def h_postselect2(env, words, outcome, route):
     env.check_eq(val * prob, R.expectation(st, n, terms), f"post-selected expectation[{route}] on outcome string {outcome} (times its probability)")
 
 
-def h_freq_mixed(env, word, pre, post, mq, n):
+def h_freq_mixed(env, word, pre, post, mq, n, method="get_expectation_value"):
     """shot-based route on a circuit containing MEASURE, WITH an initial statevector: per term, the distribution handed to the
     (density-matrix) sampler is the unconditioned Born distribution of the basis-rotated state evolved from that initial state"""
     from tangelo.linq import Circuit, Gate
@@ -289,10 +289,10 @@ def h_freq_mixed(env, word, pre, post, mq, n):
             want[i] = want[i] + a * R.n_conj(a)
     if env.symbolic:
         b = make_backend(env, n_shots=1)
-        val = b.get_expectation_value(op, circ, initial_statevector=as_array(env, psi))
+        val = getattr(b, method)(op, circ, initial_statevector=as_array(env, psi))
         calls = b.cirq.sampler_calls
         env.check_true(len(calls) >= 1 and calls[-1]["kind"] == "density_matrix", "density-matrix sampler used")
-        env.check_vec_eq(calls[-1]["probs"], want, f"outcome distribution for term {word} starts from the supplied initial statevector")
+        env.check_vec_eq(calls[-1]["probs"], want, f"{method}: outcome distribution for term {word} starts from the supplied initial statevector")
     else:
         b = make_backend(env, n_shots=40000)
         seen, orig = [], b.simulate
@@ -302,13 +302,13 @@ def h_freq_mixed(env, word, pre, post, mq, n):
             seen.append(r[0])
             return r
         b.simulate = recording
-        b.get_expectation_value(op, circ, initial_statevector=as_array(env, psi))
+        getattr(b, method)(op, circ, initial_statevector=as_array(env, psi))
         # replay only (reached when the solver has produced a counterexample): the 40000-shot histogram of the term's
         # measurement is within 5 sigma (<= 0.0125) of the distribution the property demands
         freqs = seen[-1]
         for i, p in enumerate(want):
             env.check_le(abs(freqs.get(R.bitstring(i, n), 0.) - complex(p).real), 0.015,
-                         f"outcome distribution for term {word} starts from the supplied initial statevector")
+                         f"{method}: outcome distribution for term {word} starts from the supplied initial statevector")
 
 
 def h_oneterm(env, n, keys, word):
@@ -459,6 +459,9 @@ def shapes(tier, seed):
                                   post=[("RX", [1], [])], mq=0, outcome=outcome, n=2, route=route), modules=MODS))
     out.append(Shape("freq_mixed/0", h_freq_mixed, dict(word=[(0, "Z"), (1, "X")], pre=[("RY", [0], [])], post=[("CNOT", [1], [0])], mq=0, n=2),
                      modules=MODS, max_paths=32))
+    for meth in ("get_variance", "get_standard_error"):
+        out.append(Shape(f"freq_mixed/{meth}", h_freq_mixed, dict(word=[(0, "Z"), (1, "X")], pre=[("RY", [0], [])], post=[("CNOT", [1], [0])], mq=0, n=2, method=meth),
+                         modules=MODS, max_paths=32))
     out.append(Shape("freq_mixed/1", h_freq_mixed, dict(word=[(0, "Y"), (1, "Z")], pre=[("H", [1], [])], post=[("RX", [0], [])], mq=1, n=2),
                      modules=MODS, max_paths=32))
     # two measurements with gates in between and all four outcome strings
